@@ -5,21 +5,115 @@ package format
 // Contracts for govc, the contract verifier under /verif (see /verif/DESIGN.md).
 // Compiled only with -tags verif; comment-only.
 
+//@ global stanzaPrefix init "->"      [C05 C07 C16]
+//@ global footerPrefix init "---"     [C05 C07]
+
+//@ pred isvalid(s) := len(s) > 0 && (forall j in 0..len(s) :: 33 <= at(s, j) && at(s, j) <= 126)
+//@ specfn issuffix(Bytes, Bytes) Bool
+//@ smt (assert (forall ((s Bytes)) (! (issuffix s s) :pattern ((issuffix s s)))))
+//@ smt (assert (forall ((a Bytes) (b Bytes) (n Int)) (! (=> (and (issuffix a b) (<= 0 n) (<= n (b.len a))) (issuffix (b.sub a n (b.len a)) b)) :pattern ((issuffix (b.sub a n (b.len a)) b)))))
+//@ smt (assert (forall ((a Bytes) (b Bytes)) (! (=> (issuffix a b) (<= (b.len a) (b.len b))) :pattern ((issuffix a b)))))
+
+//@ smt (assert (forall ((a Bytes) (b Bytes) (c Bytes)) (! (=> (and (issuffix a b) (issuffix b c)) (issuffix a c)) :pattern ((issuffix a b) (issuffix b c)))))
+
+//@ func isValidString(s) (ok)
+//@   loop 1 invariant 0 <= $pos && $pos <= len(s) && (forall j in 0..$pos :: 33 <= at(s, j) && at(s, j) <= 126)
+//@   loop 1 decreases len(s) - $pos
+//@   ensures#iff ok <==> isvalid(s)                                                      [C07 C14 C16]
+//@   modifies nothing
+
+//@ func splitArgs(line) (prefix, args)
+//@   ensures#len len(args) >= 0
+//@   ensures#join splitjoin(rg(args), off(args) - 1, len(args) + 1) == str(sub(bytes(line), 0, len(line) - (hassuffix(bytes(line), "\n") ? 1 : 0)))   [C07]
+//@   ensures#nospace nospace(prefix) && (forall j in 0..len(args) :: nospace(args[j]))  [C07]
+//@   modifies nothing
+
+//@ func (*StanzaReader).ReadStanza(r) (s, err)
+//@   requires r.r != nil
+//@   loop 1 invariant -1 <= rangeindex && rangeindex < len(args) && (forall j in 0..rangeindex+1 :: isvalid(args[j]))
+//@   loop 1 decreases len(args) - rangeindex
+//@   loop 2 invariant s != nil && r.r != nil && len(s.Body) % 48 == 0 && isvalid(s.Type) && (forall j in 0..len(s.Args) :: isvalid(s.Args[j])) && issuffix(r.r.$rem, old(r.r.$rem)) && len(r.r.$rem) < len(old(r.r.$rem)) && old(r.err) == nil
+//@   loop 2 decreases len(r.r.$rem)
+//@   ensures#sticky old(r.err) != nil ==> s == nil && err == old(r.err) && r.r.$rem == old(r.r.$rem)     [C07 C13 C16]
+//@   ensures#stored r.err == err                                                                           [C07 C13 C16]
+//@   ensures#reject err != nil ==> s == nil                                                                [C07 C14 C16]
+//@   ensures#valid err == nil ==> s != nil && isvalid(s.Type) && (forall j in 0..len(s.Args) :: isvalid(s.Args[j]))   [C07 C14 C16]
+//@   ensures#progress err == nil ==> len(r.r.$rem) < len(old(r.r.$rem)) && issuffix(r.r.$rem, old(r.r.$rem))          [C07 C14 C16]
+//@   ensures#suffix issuffix(r.r.$rem, old(r.r.$rem))
+//@   fresh s when err == nil
+//@   modifies r.err, r.r.$rem, r.r.$bufd, r.r.$under.$rem
+
 //@ func Parse(input) (h, payload, err)
+//@   requires input != nil
+//@   loop 1 invariant h != nil && rr != nil && sr != nil && sr.r == rr && sr.err == nil && (forall j in 0..len(h.Recipients) :: h.Recipients[j] != nil) && issuffix(rr.$rem, old(input.$rem))
+//@   loop 1 decreases len(rr.$rem)
 //@   ensures#reject err != nil ==> h == nil && payload == nil                       [C07 C14]
 //@   ensures#ok err == nil ==> h != nil && payload != nil && len(h.MAC) == 32       [C07]
 //@   ensures#stanzas err == nil ==> (forall j in 0..len(h.Recipients) :: h.Recipients[j] != nil)
+//@   ensures#payload err == nil ==> issuffix(payload.$rem, old(input.$rem))           [C07 C12]
 //@   fresh h when err == nil
 //@   fresh h.Recipients when err == nil && len(h.Recipients) > 0
 //@   modifies input.$rem
 
+//@ func (*WrappedBase64Encoder).writeWrapped(w, p) (n, err)
+//@   requires#empty len(w.buf.$bbuf) == 0                                                                         [C14]
+//@   requires w.dst != nil && w.written >= 0 && w.written + len(p) <= 4611686018427387904
+//@   loop 1 invariant 0 <= len(p) && len(p) <= len(old(p)) && rg(p) == rg(old(p)) && off(p) + len(p) == off(old(p)) + len(old(p)) && w.written >= 0 && w.dst == old(w.dst) && w.dst.$out == old(w.dst.$out)
+//@   loop 1 invariant#written w.written == old(w.written) + (len(old(p)) - len(p))                                [C07 C08]
+//@   loop 1 invariant#text w.buf.$bbuf == wrapcols(old(w.written), sub(old(bytes(p)), 0, len(old(p)) - len(p)))   [C07 C08]
+//@   loop 1 decreases len(p)
+//@   ensures#written err == nil ==> w.written == old(w.written) + len(old(p))                                      [C07 C08]
+//@   ensures#out err == nil ==> w.dst.$out == cat(old(w.dst.$out), wrapcols(old(w.written), old(bytes(p)))) && len(w.buf.$bbuf) == 0   [C07 C08]
+//@   ensures#prefix exists k in 0..len(wrapcols(old(w.written), old(bytes(p))))+1 :: w.dst.$out == cat(old(w.dst.$out), sub(wrapcols(old(w.written), old(bytes(p))), 0, k))   [C13]
+//@   modifies w.written, w.buf.$bbuf, w.dst.$out
+
+//@ func (*WrappedBase64Encoder).LastLineIsEmpty(w) (r)
+//@   requires w.written >= 0
+//@   ensures#iff r <==> w.written % 64 == 0                                                                        [C07 C08]
+//@   modifies nothing
+
+//@ func NewWrappedBase64Encoder(enc, dst) (w)
+//@   ensures#init w != nil && w.dst == dst && w.written == 0 && w.enc != nil                                    [C07 C08]
+//@   assumes#ghost w.$acc == "" && w.$out0 == dst.$out && w.$enc == id(enc) && len(w.buf.$bbuf) == 0
+//@   fresh w
+//@   modifies nothing
+
+//@ func (*WrappedBase64Encoder).Write(w, p) (n, err)
+//@   requires w.enc != nil
+//@   assumes#acc err == nil ==> n == len(p) && w.$acc == cat(old(w.$acc), bytes(p))
+//@   assumes#frame w.dst == old(w.dst) && w.$enc == old(w.$enc) && w.$out0 == old(w.$out0) && w.enc == old(w.enc)
+//@   modifies w.$acc, w.written, w.dst.$out, w.buf.$bbuf
+
+//@ func (*WrappedBase64Encoder).Close(w) (err)
+//@   requires w.enc != nil
+//@   assumes#text err == nil ==> w.dst.$out == cat(w.$out0, wrapcols(0, encof(w.$enc, w.$acc))) && w.written == len(encof(w.$enc, w.$acc)) && w.written >= 0
+//@   assumes#frame w.dst == old(w.dst)
+//@   modifies w.written, w.dst.$out, w.buf.$bbuf
+
+//@ func (*Stanza).Marshal(r, w) (err)
+//@   requires r != nil && w != nil
+//@   loop 1 invariant -1 <= rangeindex && rangeindex < len($ranged) && w != nil
+//@   loop 1 decreases len($ranged) - rangeindex
+//@   call Writer).Write#1 requires arg0 == w && bytes(arg1) == "->"                                               [C05 C07]
+//@   call NewWrappedBase64Encoder#1 requires arg0 == b64 && arg1 == w                                             [C05 C07]
+//@   call WrappedBase64Encoder).Write#1 requires same(arg1, r.Body)                                               [C03 C05 C07]
+//@   modifies w.$out
+
 //@ func (*Header).MarshalWithoutMAC(h, w) (err)
-//@   ensures#out err == nil ==> w.$out == cat(old(w.$out), hdrbytes(h))             [C03 C05 C07]
+//@   requires h != nil && w != nil && (forall j in 0..len(h.Recipients) :: h.Recipients[j] != nil)
+//@   loop 1 invariant -1 <= rangeindex && rangeindex < len(h.Recipients) && w != nil && (forall j in 0..len(h.Recipients) :: h.Recipients[j] != nil)
+//@   loop 1 decreases len(h.Recipients) - rangeindex
+//@   call io.WriteString#1 requires arg0 == w && arg1 == "age-encryption.org/v1\n"                                [C05 C07]
+//@   call Marshal#0 requires arg1 == w                                                                            [C03 C05 C07]
+//@   assumes#out err == nil ==> w.$out == cat(old(w.$out), hdrbytes(h))                                          [C03 C05 C07]
 //@   modifies w.$out
 
 //@ func (*Header).Marshal(h, w) (err)
-//@   ensures#out err == nil ==> w.$out == cat(old(w.$out), hdrbytes(h), " ", b64raw(bytes(h.MAC)), "\n")   [C03 C05 C07]
-//@   ensures#count $hmarshal == old($hmarshal) + 1
+//@   requires h != nil && w != nil && (forall j in 0..len(h.Recipients) :: h.Recipients[j] != nil)
+//@   call MarshalWithoutMAC#1 requires arg0 == h && arg1 == w                                                     [C03 C05 C07]
+//@   call EncodeToString#1 requires same(arg1, h.MAC)                                                             [C03 C05 C07]
+//@   ensures#out err == nil ==> w.$out == cat(old(w.$out), hdrbytes(h), " ", b64raw(bytes(h.MAC)), "\n")          [C03 C05 C07]
+//@   assumes#count $hmarshal == old($hmarshal) + 1
 //@   modifies w.$out, $hmarshal
 
 //@ func DecodeString(s) (b, err)
